@@ -21,6 +21,7 @@
 -/
 import GoblVerif.Spec.C01
 import GoblVerif.Generated.CalcFacts
+import GoblVerif.Proofs.CalcError
 import GoblVerif.Proofs.NumX
 
 namespace GoblVerif.Props.C01
@@ -128,7 +129,100 @@ theorem presented_is_rounding (c : ℕ) (a : Amount) :
     (a.exp ≤ c → (exactOps.rescale a c).toRat = a.toRat) :=
   ⟨fun h => ⟨rescaleX_exp a c, rescaleX_down_spec a c h⟩, fun h => rescaleX_up_toRat a c h⟩
 
+/-! ## error bounds under `precise` -/
+
+/-- one rounding step is off by at most half a unit of its precision -/
+theorem rounding_step_error (a b : Amount) (e : ℕ) :
+    |(a.mulX b).toRat - a.toRat * b.toRat| ≤ halfUlp a.exp ∧ |(a.rescaleX e).toRat - a.toRat| ≤ halfUlp e :=
+  ⟨mulX_err a b, rescaleX_err a e⟩
+
+/-- a simple line (priced in the document currency, no breakdown, discounts or charges): its total
+is within half a unit of the working precision (currency + 2 decimals) of price × quantity -/
+theorem simple_line_error (cur : String) (c : ℕ) (rates : List XRate) (l l' : Line) (hs : SimpleLine l)
+    (h : calcLine exactOps cur c rates .precise l = .ok l') :
+    ∃ t, l'.total = some t ∧ |t.toRat - lineExact l| ≤ halfUlp (c + 2) :=
+  simpleLine_total cur c rates l l' hs h
+
+/-- **no presented sum is a full minor unit off** (precise rule, any number n < 100 of simple lines
+of any quantities and prices): the presented document sum differs from the exact Σ price × quantity
+by at most ½·10⁻ᶜ + n·½·10⁻⁽ᶜ⁺²⁾, which is less than one minor currency unit. -/
+theorem presented_sum_within_one_unit (d : Doc) (out : Out) (t : Totals) (hrule : d.rule = .precise)
+    (hs : ∀ l ∈ d.lines, SimpleLine l) (hn : d.lines.length < 100)
+    (hcalc : calculate exactOps d = .ok out) (ht : out.totals = some t) :
+    |t.sum.toRat - (d.lines.map lineExact).sum| < 1 / ((pow10 d.c : ℤ) : ℚ) := by
+  unfold calculate at hcalc
+  cases hpre : pre exactOps d with
+  | error e => simp [hpre] at hcalc
+  | ok p =>
+    simp only [hpre] at hcalc
+    -- what `pre` computed
+    unfold pre at hpre
+    cases hl : calcLines exactOps d.cur d.c d.rates d.rule d.lines with
+    | error e => simp [hl] at hpre
+    | ok lines =>
+      simp only [hl] at hpre
+      injection hpre with hpre
+      have hsum : p.sum = lineSum exactOps d.c lines := by rw [← hpre]
+      split at hcalc
+      · injection hcalc with hcalc
+        rw [← hcalc] at ht
+        simp at ht
+      · cases htx : taxTotal exactOps d.rule d.c d.includes p.rows with
+        | error e => simp [htx] at hcalc
+        | ok tx =>
+          simp only [htx] at hcalc
+          injection hcalc with hcalc
+          rw [← hcalc] at ht
+          simp only [finish, Option.some.injEq] at ht
+          have hts : t.sum = (lineSum exactOps d.c lines).rescaleX d.c := by
+            rw [← ht]; simp [roundTotals, rawTotals, hsum]
+          rw [hts]
+          have h1 := rescaleX_err (lineSum exactOps d.c lines) d.c
+          have h2 := (sums_exact_lines d.c lines).1
+          rw [hrule] at hl
+          have h3 := simpleLines_sum d.cur d.c d.rates d.lines lines hs hl
+          rw [← h2] at h3
+          have hp := p10q_pos d.c
+          have hp2 : ((pow10 (d.c + 2) : ℤ) : ℚ) = ((pow10 d.c : ℤ) : ℚ) * 100 := by
+            unfold pow10; push_cast; ring
+          have hn' : (d.lines.length : ℚ) ≤ 99 := by exact_mod_cast Nat.le_of_lt_succ hn
+          have hu2 : halfUlp (d.c + 2) = 1 / (200 * ((pow10 d.c : ℤ) : ℚ)) := by
+            unfold halfUlp; rw [hp2]; ring
+          have hu : halfUlp d.c = 1 / (2 * ((pow10 d.c : ℤ) : ℚ)) := rfl
+          have hpos : (0 : ℚ) < 1 / (200 * ((pow10 d.c : ℤ) : ℚ)) := by positivity
+          calc |((lineSum exactOps d.c lines).rescaleX d.c).toRat - (d.lines.map lineExact).sum|
+              = |(((lineSum exactOps d.c lines).rescaleX d.c).toRat - (lineSum exactOps d.c lines).toRat) +
+                  ((lineSum exactOps d.c lines).toRat - (d.lines.map lineExact).sum)| := by ring_nf
+            _ ≤ halfUlp d.c + d.lines.length * halfUlp (d.c + 2) := le_trans (abs_add_le _ _) (add_le_add h1 h3)
+            _ ≤ 1 / (2 * ((pow10 d.c : ℤ) : ℚ)) + 99 * (1 / (200 * ((pow10 d.c : ℤ) : ℚ))) := by
+                rw [hu, hu2]; nlinarith
+            _ < 1 / ((pow10 d.c : ℤ) : ℚ) := by
+                rw [div_add' _ _ _ (by positivity), ← sub_pos]
+                field_simp
+                ring_nf
+                positivity
+
 /-! ## non-vacuity -/
+
+/-- a two-line document meeting every hypothesis of `presented_sum_within_one_unit`; exact sum
+30.015 + 2.6664 = 32.6814, presented 32.68 -/
+def twoLines : Doc :=
+  { cur := "EUR", c := 2, rule := .precise, includes := none,
+    lines := [{ qty := ⟨3, 0⟩, item := some { price := some ⟨10005, 3⟩, cur := "", sub := 2, alts := [] },
+                discounts := [], charges := [], breakdown := [],
+                taxes := [{ cat := "VAT", country := "", key := "standard", percent := some ⟨⟨21, 2⟩⟩,
+                            surcharge := none, ext := "", retained := false }] },
+              { qty := ⟨12, 1⟩, item := some { price := some ⟨2222, 3⟩, cur := "", sub := 2, alts := [] },
+                discounts := [], charges := [], breakdown := [], taxes := [] }],
+    discounts := [], charges := [], rates := [], rounding := none, hasPayment := false, advances := [], dues := [] }
+
+example : twoLines.rule = .precise ∧ (∀ l ∈ twoLines.lines, SimpleLine l) ∧ twoLines.lines.length < 100 ∧
+    ((calculate exactOps twoLines).toOption.bind (·.totals)).map (·.sum) = some ⟨3268, 2⟩ := by
+  refine ⟨rfl, ?_, by decide, by decide⟩
+  intro l hl
+  simp only [twoLines, List.mem_cons, List.mem_nil_iff, or_false] at hl
+  rcases hl with rfl | rfl <;> exact ⟨_, _, rfl, rfl, rfl, rfl, rfl, rfl⟩
+
 
 example : (calcLine exactOps "EUR" 2 [] .precise
     { qty := ⟨3, 0⟩, item := some { price := some ⟨10005, 3⟩, cur := "", sub := 2, alts := [] },
